@@ -50,6 +50,10 @@ func getProfile(name string, seed int64) *Profile {
 		p.Rich = true
 		p.Colls = 1
 		p.Invalid = 0
+	case "expiry": // C15: _expiresAt is data, nothing ever expires - on any backend
+		p.Colls = 1
+		p.TimeTable = "soon"
+		p.Invalid = 0
 	case "algebra": // C16: algebraically equivalent criteria, literal kinds, reference operands
 		p.Ops = 40
 		p.Colls = 1
@@ -134,6 +138,8 @@ func generate(p *Profile, seed int64) ([]E, *Universe) {
 			{"op": "FindById", "c": c, "id": B(g.ids[0])}}, g.U
 	case p.Name == "retype" || p.Name == "retypereopen":
 		return g.HistoryRetype(), g.U
+	case p.Name == "expiry":
+		return g.HistoryExpiry(), g.U
 	case p.Name == "algebra":
 		return g.HistoryAlgebra(), g.U
 	case p.Name == "huge":
